@@ -67,8 +67,10 @@ Outcome(d, r, L) ==
 
 NoErr == [e |-> FALSE]
 Err(kind, path, line) == [e |-> TRUE, kind |-> kind, path |-> path, line |-> line]
-\* reader state: cache (ids read successfully), loaded (ids whose text was parsed, in order), prints, err
-S0 == [cache |-> {}, loaded |-> <<>>, prints |-> <<>>, err |-> NoErr]
+\* reader state: cache (ids read successfully), loaded (ids whose text was parsed, in order), prints, err,
+\* log: the sequence of steps (begin / resolve / print / end) - what the hooks of the implementation record (Binding B)
+Log(s, e) == [s EXCEPT !.log = Append(@, e)]
+S0 == [cache |-> {}, loaded |-> <<>>, prints |-> <<>>, err |-> NoErr, log |-> <<>>]
 
 BodyLine(d) == Len(d.refs) + 1
 \* Object populations: as found, targets and lookup definitions are distinct objects with separate caches ("T"/"L");
@@ -80,26 +82,31 @@ ReadDef(d, L, hp, s, kd) ==
   IF s.err.e \/ <<kd, Id(d)>> \in s.cache THEN s                            \* cache hit
   ELSE
     LET L2 == { x \in L : ~SameNV(x, d) }                                   \* remove self (by name and version)
-        s1 == [s EXCEPT !.loaded = Append(@, Id(d))]
+        s1 == Log([s EXCEPT !.loaded = Append(@, Id(d))], [e |-> "begin", id |-> Id(d)])
+        EndOk(x) == Log(x, [e |-> "end", id |-> Id(d), ok |-> TRUE])
+        EndBad(x) == Log(x, [e |-> "end", id |-> Id(d), ok |-> FALSE])
     IN IF d.body = "garbage"                                                \* the text does not parse: nothing is visited
-       THEN [s1 EXCEPT !.err = Err("syntax", Id(d), BodyLine(d))]
+       THEN EndBad([s1 EXCEPT !.err = Err("syntax", Id(d), BodyLine(d))])
        ELSE
          LET s2 == ReadRefs(d, L2, hp, s1, 1) IN
-         IF s2.err.e THEN s2
+         IF s2.err.e THEN EndBad(s2)                                         \* the error unwinds through every open read
          ELSE CASE d.body = "print" ->
-                     [s2 EXCEPT !.prints = Append(@, [in |-> Id(d), path |-> IF AsFoundPrintPath THEN hp ELSE Id(d),
-                                                      line |-> BodyLine(d)]),
-                                !.cache = @ \cup {<<kd, Id(d)>>}]
-                [] d.body = "assertfail" -> [s2 EXCEPT !.err = Err("assert", Id(d), BodyLine(d))]
-                [] d.body = "nomode" -> [s2 EXCEPT !.err = Err("nomode", Id(d), 0)]      \* found at finalization: no line
-                [] OTHER -> [s2 EXCEPT !.cache = @ \cup {<<kd, Id(d)>>}]
+                     EndOk([Log(s2, [e |-> "print", id |-> Id(d), line |-> BodyLine(d)])
+                              EXCEPT !.prints = Append(@, [in |-> Id(d), path |-> IF AsFoundPrintPath THEN hp ELSE Id(d),
+                                                           line |-> BodyLine(d)]),
+                                     !.cache = @ \cup {<<kd, Id(d)>>}])
+                [] d.body = "assertfail" -> EndBad([s2 EXCEPT !.err = Err("assert", Id(d), BodyLine(d))])
+                [] d.body = "nomode" -> EndBad([s2 EXCEPT !.err = Err("nomode", Id(d), 0)])      \* found at finalization: no line
+                [] OTHER -> EndOk([s2 EXCEPT !.cache = @ \cup {<<kd, Id(d)>>}])
 ReadRefs(d, L, hp, s, k) ==
   IF s.err.e \/ k > Len(d.refs) THEN s
-  ELSE LET o == Outcome(d, d.refs[k], L) IN
-       CASE o.k = "missing"   -> [s EXCEPT !.err = Err("undefined", Id(d), k)]
-         [] o.k = "collision" -> [s EXCEPT !.err = Err("collision", Id(d), k)]
-         [] o.k = "case"      -> [s EXCEPT !.err = Err("case", Id(d), k)]
-         [] OTHER -> ReadRefs(d, L, hp, ReadDef(o.def, L, hp, s, Kind(FALSE)), k + 1)
+  ELSE LET o == Outcome(d, d.refs[k], L)
+           sl == Log(s, [e |-> "resolve", id |-> Id(d), k |-> k, found |-> { Id(x) : x \in Found(d, d.refs[k], L) }])
+       IN
+       CASE o.k = "missing"   -> [sl EXCEPT !.err = Err("undefined", Id(d), k)]
+         [] o.k = "collision" -> [sl EXCEPT !.err = Err("collision", Id(d), k)]
+         [] o.k = "case"      -> [sl EXCEPT !.err = Err("case", Id(d), k)]
+         [] OTHER -> ReadRefs(d, L, hp, ReadDef(o.def, L, hp, sl, Kind(FALSE)), k + 1)
 
 \* the target loop of _read_definitions (level 0): targets in sorted order, handler bound to each target's own path;
 \* a target that was already read as a dependency (its lookup object is pooled) is only promoted, not read again
@@ -131,7 +138,7 @@ Result(c) ==
       s == ReadTargets(ts, 1, AllDefs(c), S0)
   IN IF s.err.e
      THEN [ok |-> FALSE, kind |-> s.err.kind, path |-> s.err.path, line |-> s.err.line, prints |-> s.prints,
-           loaded |-> s.loaded, closure |-> { Id(d) : d \in Closure(c) }]
+           loaded |-> s.loaded, closure |-> { Id(d) : d \in Closure(c) }, log |-> s.log]
      ELSE [ok |-> TRUE,
            direct |-> [j \in DOMAIN ts |-> Id(ts[j])],
            transitive |-> LET st == SortDefs({ d \in c.defs : Id(d) \in CachedIds(s) /\ d \notin Targets(c) })
@@ -139,7 +146,7 @@ Result(c) ==
            \* for every definition read: what each of its references resolved to
            links |-> UNION { { [from |-> Id(d), k |-> k, to |-> Id(Outcome(d, d.refs[k], LMinus(c, d)).def)]
                                : k \in DOMAIN d.refs } : d \in { x \in c.defs : Id(x) \in CachedIds(s) } },
-           prints |-> s.prints, loaded |-> s.loaded, closure |-> { Id(d) : d \in Closure(c) }]
+           prints |-> s.prints, loaded |-> s.loaded, closure |-> { Id(d) : d \in Closure(c) }, log |-> s.log]
 
 -----------------------------------------------------------------------------
 (* Enumeration of configurations *)
@@ -219,6 +226,14 @@ LoadedOncePerFile == Done /\ ~AsFoundTwoObjects => \A p, q \in DOMAIN out.loaded
 OutsideIrrelevant ==
   Done => \A d \in case.defs \ Closure(case) : \A b \in {"garbage", "assertfail", "print", "nomode"} :
             Result([case EXCEPT !.defs = (@ \ {d}) \cup {[d EXCEPT !.body = b]}]) = out
+\* step level (Binding B checks the same on recorded executions): every begin has its end, nesting never exceeds the
+\* number of definitions (the lookup list shrinks), nothing outside the closure is ever begun
+RECURSIVE Depths(_, _, _)
+Depths(log, j, d) == IF j > Len(log) THEN {d}
+                     ELSE LET nd == IF log[j].e = "begin" THEN d + 1 ELSE IF log[j].e = "end" THEN d - 1 ELSE d IN {nd} \cup Depths(log, j + 1, nd)
+StackBounded == Done => \A x \in Depths(out.log, 1, 0) : x >= 0 /\ x <= Cardinality(case.defs)
+LogBalanced == Done => Cardinality({ j \in DOMAIN out.log : out.log[j].e = "begin" }) = Cardinality({ j \in DOMAIN out.log : out.log[j].e = "end" })
+LogInsideClosure == Done => \A j \in DOMAIN out.log : out.log[j].id \in { Id(d) : d \in Closure(case) }
 (* C17 *)
 PrintOnce == Done => \A p, q \in DOMAIN out.prints : p # q => out.prints[p].in # out.prints[q].in
 PrintOwnPath == Done => \A p \in DOMAIN out.prints : out.prints[p].path = out.prints[p].in
